@@ -64,6 +64,7 @@ type ProgCfg struct {
 	FnErr        bool
 	ForceKinds   []Kind // kinds of the first root options
 	Valid        int    // percent of string-kind options restricted to valid values
+	Suggested    int    // percent of string-kind options with suggested (not enforced) values
 	LateOpts     int    // percent of nodes with commands that get an option declared after their commands (needs Help)
 }
 
@@ -74,7 +75,7 @@ func DefaultCfg() ProgCfg {
 	return ProgCfg{
 		Kinds: AllKinds, RootOpts: [2]int{2, 6}, CmdOpts: [2]int{0, 3}, MaxDepth: 2, MaxFan: 3,
 		Wrapper: true, Help: false, ReqOrder: false, CmdModes: true, Multibyte: true, Aliases: 2,
-		Modes: []int{0, 1, 2}, Unknowns: []int{0, 1, 2}, MaxMulti: 3, NestedNames: true, FnLess: false, LateOpts: 30,
+		Modes: []int{0, 1, 2}, Unknowns: []int{0, 1, 2}, MaxMulti: 3, NestedNames: true, FnLess: false, LateOpts: 30, Suggested: 10,
 	}
 }
 
@@ -165,9 +166,13 @@ func GenProg(r *Rng, cfg ProgCfg) *Prog {
 			c.FnErr = true
 		}
 		taken := map[string]bool{}
+		wrapperHelpNamed := false
 		if !isRoot && cfg.Wrapper && r.Chance(1, 6) {
 			c.Unset = true
 			c.Unknown = 2
+			if p.Help != "" && r.Chance(1, 4) {
+				wrapperHelpNamed = true // the wrapper declares an ordinary flag of its own that is named like the help flag
+			}
 		} else {
 			for k := range inherited {
 				taken[k] = true
@@ -258,12 +263,20 @@ func GenProg(r *Rng, cfg ProgCfg) *Prog {
 					}
 				}
 			}
+			if cfg.Suggested > 0 && len(o.Valid) == 0 && (o.Kind.IsStr() || o.Kind == KInt) && r.Intn(100) < cfg.Suggested {
+				o.Suggested = []string{"sugb", "suga", "7"} // hints for completion only: any other value is still accepted
+			}
 			if cfg.Valid > 0 && o.Env == "" && (o.Kind == KString || o.Kind == KStringOpt || o.Kind == KStrings) && r.Intn(100) < cfg.Valid {
 				o.Valid = []string{"va" + strconv.Itoa(o.ID), "vb", "v c"}
 			}
 			if cfg.SetCalled > 0 && r.Intn(100) < cfg.SetCalled {
 				o.SetCalled = true
 			}
+			c.Opts = append(c.Opts, o)
+		}
+		if wrapperHelpNamed {
+			o := &Opt{ID: id, Kind: KBool, Name: p.Help, Desc: fmt.Sprintf("D%dD", id)}
+			id++
 			c.Opts = append(c.Opts, o)
 		}
 		if cfg.LonesomeDash && isRoot && r.Chance(1, 4) && !taken["-"] {
